@@ -100,6 +100,19 @@ def flags_on_path(lf):
         f = contains_flag(t)
         if f is not None:
             out[f] = truth(c)
+        elif is_call(t, "vmm_sys_util::epoll::EventSet::intersects"):
+            # intersects(A | B | C): false = none of them is set; true = at least one of them is
+            mask = eventset_value(t[2][1])
+            tv = truth(c)
+            if mask is not None and tv is not None:
+                bits = [1 << i for i in range(32) if mask & (1 << i)]
+                for b in bits:
+                    if tv is False:
+                        out[b] = False
+                    elif len(bits) == 1:
+                        out[b] = True
+                    elif out.get(b) is not False:
+                        out[b] = "one-of-0x%x" % mask
     return out
 
 
